@@ -28,6 +28,7 @@ import (
 	"regexp"
 	"strconv"
 	"strings"
+	"sync"
 
 	"github.com/compose-spec/compose-go/v2/consts"
 	"github.com/compose-spec/compose-go/v2/errdefs"
@@ -86,13 +87,19 @@ type Options struct {
 	Listeners []Listener
 }
 
-var versionWarning []string
+var (
+	versionWarning     []string
+	versionWarningLock sync.Mutex
+)
 
 func (o *Options) warnObsoleteVersion(file string) {
+	// loads may run concurrently: the list of files already reported is shared by all of them
+	versionWarningLock.Lock()
+	defer versionWarningLock.Unlock()
 	if !slices.Contains(versionWarning, file) {
 		logrus.Warning(fmt.Sprintf("%s: the attribute `version` is obsolete, it will be ignored, please remove it to avoid potential confusion", file))
+		versionWarning = append(versionWarning, file)
 	}
-	versionWarning = append(versionWarning, file)
 }
 
 type Listener = func(event string, metadata map[string]any)
